@@ -15,6 +15,31 @@ def run(index, rep, tier):
     with rep.section("R16.5"):
         from . import c12
         rep.floor("R16.5", "defaults and class-level containers in the parsimony module", 5, c12.shared_mutable_rule(index, rep, "R16.5", [PM]))
+    rep.rule("R16.6", "state sets follow the alphabet: every lazily computed cache of a StateIdentity (fundamental states / symbols / indexes, with and without gaps as missing) is dropped wherever its member states are (re)defined - the scorer reads these caches for every cell")
+    with rep.section("R16.6"):
+        SI = "dendropy.datamodel.charstatemodel.StateIdentity"
+        ci = index.klass(SI)
+        caches = set()
+        for m in ci.methods.values():
+            for iff in walk_no_nested(m.node):
+                if isinstance(iff, ast.If):
+                    cp = compare_parts(iff.test)
+                    if cp and cp[1] == "Is" and is_none(cp[2]) and isinstance(cp[0], ast.Attribute) and norm(cp[0].value) == "self":
+                        x = cp[0].attr
+                        if any(isinstance(a, ast.Assign) and norm(a.targets[0]) == "self." + x for a in ast.walk(iff)):
+                            caches.add(x)
+        rep.floor("R16.6", "lazily computed caches of StateIdentity", 5, len(caches))
+        nw = 0
+        for m in ci.methods.values():
+            ws = [w for w in writes_in(m.node) if w.kind == "store" and w.attr == "_member_states" and w.base is not None and norm(w.base) == "self"]
+            if not ws:
+                continue
+            nw += 1
+            reset = {w.attr for w in writes_in(m.node) if w.kind == "store" and w.base is not None and norm(w.base) == "self" and w.value is not None and is_none(w.value)}
+            missing = sorted(caches - reset)
+            rep.check(not missing, "R16.6", m.qualname, "caches not dropped when the member states change: %s" % missing, fn_where(m, ws[0].stmt), "%s drops all %d caches" % (m.qualname, len(caches)),
+                      "%s (re)defines the member states of a state but leaves the cached %s in place: after the alphabet changes (a state added, tables recompiled) an ambiguity / missing-data symbol keeps the state set of the old alphabet, so cells scored with it force spurious changes and the score is above the minimum" % (m.qualname, ", ".join(missing)))
+        rep.floor("R16.6", "functions defining the member states", 2, nw)
     fd = index.function(PM + ".fitch_down_pass")
     ps = index.function(PM + ".parsimony_score")
 
